@@ -19,7 +19,7 @@ MANIFEST = {
              'values, outcome by outcome); C02_hier_refines / C02_hier_bijection (IndexHierarchy.from_labels: dict-tree walk with the shared '
              'observed_last list, levels with relative offsets, leaf_loc_to_iloc: accepted iff one depth >= 2, distinct and tree-ordered; then the '
              'table in the given order with exact lookups); C02_derive_select/drop/roll (label computations of the derivations keep an index an index). '
-             'Refuted/C02.v: 5 concrete witnesses where the faithful model (= the unchanged code) leaves the property (known/C02.jsonl). '
+             'Refuted/C02_*.v: 5 concrete witnesses (one file per finding) where the faithful model (= the unchanged code) leaves the property (known/C02.jsonl). '
              'Gen/Gen_c02.v: error classes and statement-order facts re-read from the AST of /repo on every run and used by M. '
              'API-level correspondence of M and of S with the implementation: every public construction route x label kinds, exhaustive small label '
              'sequences / append histories, derivations (selection, drop, roll, relabel, sort, set operations, astype, copy/pickle, level_add/flat/'
@@ -36,7 +36,8 @@ MANIFEST = {
     'technique': 'refinement proofs M = S (flat, grow-only histories, hierarchical construction) + differential correspondence + regenerated constants',
 }
 PROPERTY_FILES = ['Properties/C02.v']
-REFUTED_FILES = ['Refuted/C02.v']
+REFUTED_FILES = ['Refuted/C02_unvalidated_key.v', 'Refuted/C02_float_key.v', 'Refuted/C02_float_append.v',
+                 'Refuted/C02_stale_positions.v', 'Refuted/C02_dtype_map.v']
 MODEL_FILES = ['Gen/Gen_c02.v', 'SF/IndexBij.v', 'SF/IndexBijVal.v', 'SF/IxTree.v', 'SF/IxTreeVal.v']
 IMPORTS = 'Require Import SF.Prelude SF.Dtype SF.Value SF.PySlice SF.IndexBij SF.IndexBijVal SF.IxTree SF.IxTreeVal.'
 RULE = ('every case builds an index through the public interface and observes it COMPLETELY (values, iteration, reversed, len, positions, iloc[i], '
@@ -59,7 +60,7 @@ TRANSLATED = []
 # ----------------------------------------------------------------------------- generated constants
 def generate(repo):
     '''Decisive facts of index.py / index_level.py read from the AST on every run (fail closed): the model M uses these
-    constants, so the theorems of Properties/C02.v and the witnesses of Refuted/C02.v are re-checked against what the
+    constants, so the theorems of Properties/C02.v and the witnesses of Refuted/C02_*.v are re-checked against what the
     source says now.'''
     import ast
     import os
@@ -113,6 +114,17 @@ def generate(repo):
                 init_err = enum_of(raised_class(nxt.body[0]))
     if init_err is None:
         raise ValueError('Index.__init__: AutoMap construction not found')
+    # (1b) are non-array labels converted to the requested dtype BEFORE the map is built ?
+    i_mapblock = None
+    for i, st in enumerate(init.body):
+        if (isinstance(st, ast.If) and isinstance(st.test, ast.Compare) and is_self_attr(st.test.left, '_map')
+                and any(isinstance(n, ast.Call) and isinstance(n.func, ast.Name) and n.func.id == 'FrozenAutoMap' for n in ast.walk(st))):
+            i_mapblock = i
+    if i_mapblock is None:
+        raise ValueError('Index.__init__: the `if self._map is None:` block building the map is not a top-level statement any more')
+    casts_first = any(isinstance(n, ast.Call) and isinstance(n.func, ast.Name) and n.func.id == 'iterable_to_array_1d'
+                      and any(k.arg == 'dtype' for k in n.keywords)
+                      for st in init.body[:i_mapblock] for n in ast.walk(st))
     # (2)(3) _IndexGOMixin.append
     app = find_func(find_class(index_mod, '_IndexGOMixin'), 'append')
     stmts = [s for s in app.body if not (isinstance(s, ast.Expr) and isinstance(s.value, ast.Constant))]
@@ -148,6 +160,17 @@ def generate(repo):
     h0 = head.body[0]
     loc_to_iloc_recaches = (isinstance(h0, ast.If) and is_self_attr(h0.test, '_recache')
                             and any(isinstance(n, ast.Call) and is_self_attr(n.func, '_update_array_cache') for n in ast.walk(h0)))
+    # (3c) ... and does it validate an element key against [0, len) itself (a `raise KeyError` that is not inside the
+    #      try/except around self._positions[key]) ?
+    def raises_keyerror_outside_try(stmts):
+        for st in stmts:
+            if isinstance(st, ast.Try):
+                continue
+            for n in ast.walk(st):
+                if isinstance(n, ast.Raise) and isinstance(n.exc, ast.Call) and isinstance(n.exc.func, ast.Name) and n.exc.func.id == 'KeyError':
+                    return True
+        return False
+    auto_lookup_validates = raises_keyerror_outside_try(head.body)
     # (4) IndexLevel.__contains__: what is returned once a leaf level is reached
     lvl_mod = parse('static_frame/core/index_level.py')
     cont = find_func(find_class(lvl_mod, 'IndexLevel'), '__contains__')
@@ -169,12 +192,16 @@ def generate(repo):
             'Require Import SF.Prelude.\n\n'
             '(* error class (harness enum) raised by Index.__init__ when AutoMap reports a duplicate *)\n'
             f'Definition gen_init_dup_error : string := {lit.s(init_err)}.\n'
+            '(* Index(labels, dtype=d): non-array labels are converted to d before the label->position map is built *)\n'
+            f'Definition gen_init_dtype_casts_first : bool := {b(casts_first)}.\n'
             '(* error class raised by IndexGO.append when the value is already contained *)\n'
             f'Definition gen_append_dup_error : string := {lit.s(append_err)}.\n'
             '(* IndexGO.append pushes the value onto _labels_mutable BEFORE AutoMap(self._labels_mutable) is built on promotion *)\n'
             f'Definition gen_go_push_before_map : bool := {b(push_before_map)}.\n'
             '(* Index.loc_to_iloc refreshes stale caches before reading self._positions on a map-less index *)\n'
             f'Definition gen_loc_to_iloc_recaches : bool := {b(loc_to_iloc_recaches)}.\n'
+            '(* Index.loc_to_iloc on a map-less index validates an element key against [0, len) before returning it *)\n'
+            f'Definition gen_auto_lookup_validates : bool := {b(auto_lookup_validates)}.\n'
             '(* IndexLevel.__contains__ checks that the key is exhausted when it reaches a leaf level *)\n'
             f'Definition gen_hier_contains_checks_exhausted : bool := {b(leaf_checks_exhausted)}.\n')
     return {'Gen/Gen_c02.v': text}
@@ -867,34 +894,14 @@ def rhobs_lit(build, probes):
     return f'(Ok {reading(hobs_lit, ih, probes)})', ih
 
 
-def overlong_held(labels, probe):
-    '''The probe is longer than the depth and its depth-prefix is a held label (class of finding C02-hier-contains-overlong).'''
-    if not labels:
-        return False
-    d = len(labels[0])
-    return len(probe) > d and any(len(x) == d and tuple(x) == tuple(probe[:d]) for x in labels)
-
-
 def hier_case(ctx, route, build, labels, probes, stratum, model=True):
-    out = []
-    groups = [([p for p in probes if not overlong_held(labels, p)], None)]
-    over = [p for p in probes if overlong_held(labels, p)]
-    if over:
-        groups.append((over, 'C02-hier-contains-overlong'))
-    for ps, finding in groups:
-        obs, ih = rhobs_lit(lambda: build(labels), ps)
-        if finding and ih is None:
-            continue
-        L, P = ll(labels), ll(ps)
-        depth = len(labels[0]) if labels else 0
-        ctx.count(f'hier:route:{route}', f'hier:n={min(len(labels), 9)}', f'hier:depth={depth}', 'hier:accepted' if ih is not None else 'hier:rejected')
-        tags = {'route': route}
-        if finding:
-            tags['finding'] = finding
-        out.append(Case(stratum, {'route': route, 'labels': repr(labels), 'probes': repr(ps), 'observed': obs[:400]},
-                        m=f'chk_M_hier {L} {P} {obs}' if model else None, s=f'chk_S_hier {L} {P} {obs}',
-                        tags=tags, nontrivial=len(labels) >= 2))
-    return out
+    obs, ih = rhobs_lit(lambda: build(labels), probes)
+    L, P = ll(labels), ll(probes)
+    depth = len(labels[0]) if labels else 0
+    ctx.count(f'hier:route:{route}', f'hier:n={min(len(labels), 9)}', f'hier:depth={depth}', 'hier:accepted' if ih is not None else 'hier:rejected')
+    return [Case(stratum, {'route': route, 'labels': repr(labels), 'probes': repr(probes), 'observed': obs[:400]},
+                 m=f'chk_M_hier {L} {P} {obs}' if model else None, s=f'chk_S_hier {L} {P} {obs}',
+                 tags={'route': route}, nontrivial=len(labels) >= 2)]
 
 
 def hier_routes():
@@ -926,7 +933,7 @@ def hier_small_cases(ctx):
     for rows, maxlen in plan:
         for n in range(1, maxlen + 1):
             for labels in itertools.product(rows, repeat=n):
-                probes = [list(r) for r in rows[:6]] + [list(rows[0][:-1])]
+                probes = [list(r) for r in rows[:6]] + [list(rows[0][:-1]), list(rows[0]) + [rows[0][-1]], list(labels[-1]) + ['zz']]
                 for name in names:
                     yield from hier_case(ctx, name, R[name], [tuple(x) for x in labels], probes, 'api:hier-small')
     # a tuple as a COMPONENT of a hierarchical label (index_level.py:155 notes it is unsupported): index.iloc[i] flattens it
@@ -1012,7 +1019,6 @@ def hier_derive_cases(ctx):
 
         def emit(name, build, expect, extra=None):
             probes = hier_probes(ctx.rng, expect if expect else table, rows)
-            probes = [p for p in probes if not overlong_held(expect, p)]
             obs, ih = rhobs_lit(build, probes)
             ctx.count(f'hier-derive:{name}', 'hier-derive:accepted' if ih is not None else 'hier-derive:rejected')
             desc = {'derivation': name, 'source': repr(table), 'expected_table': repr(expect), 'probes': repr(probes), 'observed': obs[:300]}
@@ -1099,7 +1105,7 @@ def ihgo_append_cases(ctx):
                 labels.append(new)
             ops.append(new)
         rows = [tuple(ctx.rng.choice(p) for p in pools) for _ in range(2)]
-        probes = [p for p in hier_probes(ctx.rng, labels, rows) if not overlong_held(labels, p)]
+        probes = hier_probes(ctx.rng, labels, rows)
         obs = f'(Ok {reading(hobs_lit, ih, probes)})'
         ctx.count('ihgo:append-history')
         yield Case('api:ihgo-append', {'initial': repr(table), 'appended': repr(ops), 'outcomes': outs, 'expected_table': repr(labels), 'observed': obs[:300]},
